@@ -222,6 +222,20 @@ Proof.
   - induction vs as [|v t IH]; cbn [map]; constructor; [apply init_padded|exact IH].
 Qed.
 
+(* the repaired variant returns exactly the leading part of what the pinned code returns, without the zero padding;
+   its buffers have min(max_iters,n)+1 and min(max_iters,n) columns, so H[:-1] is the square matrix of the steps that can be taken *)
+Theorem arnoldi_capped_spec {C V} (o : kops C V) (A : V -> V) n vs max_iters tol :
+  let cap := Nat.min max_iters n in
+  let fixed := arnoldi_batch_capped o A n vs max_iters tol in
+  let pinned := arnoldi_batch o A n vs max_iters tol in
+  fst pinned = fst fixed /\ Forall2 (Padded o cap (max_iters - cap)) (snd fixed) (snd pinned) /\
+  forall s, In s (snd fixed) -> length (aQ s) = cap + 1 /\ length (aH s) = cap /\
+                                 (forall j, j < cap -> length (nth j (aH s) []) = cap + 1).
+Proof. cbv zeta. unfold arnoldi_batch_capped.
+  destruct (arnoldi_padding_lemma o A n vs max_iters tol) as [E P]. split; [exact E|]. split; [exact P|].
+  intros s Hs. destruct (arnoldi_structure o A n vs (Nat.min max_iters n) tol) as (_ & _ & _ & Hall).
+  destruct (Hall s Hs) as (lQ & lH & lc & _). auto. Qed.
+
 (* ================= Part 2: algebra ================= *)
 From Core Require Import C14_Thms.   (* csum *)
 
